@@ -1,18 +1,21 @@
 import LentilVerif.Lemmas.FftDft
+import LentilVerif.Lemmas.Fourier
 import Mathlib.Analysis.Real.Sqrt
 import Mathlib.Analysis.SpecialFunctions.Trigonometric.Basic
 import Mathlib.Analysis.SpecialFunctions.Complex.Log
-/-! The intended instantiation `K = ℂ`, `R = ℝ` of the model's scalar classes, and the two analytic facts the generic
+/-! At the instantiation `K = ℂ`, `R = ℝ` of the model's scalar classes (instances in Lemmas/Fourier.lean), the two analytic facts the generic
 FFT = DFT theorem needs: `exp(-2 pi i t/n)` is `n`-periodic in the integer `t`; `1/sqrt(ab) = sqrt|1/a · 1/b|`. -/
 namespace Lentil
 open Complex
 
-/-- the intended instantiation of the model's scalar classes -/
-@[reducible] noncomputable def realLikeReal : RealLike ℝ := ⟨fun n => (n : ℝ), 2 * Real.pi, Real.sqrt, fun x => |x|⟩
-@[reducible] noncomputable def cxLikeComplex : CxLike ℂ ℝ :=
-  ⟨fun t => Complex.exp ((t : ℂ) * I), fun r => (r : ℂ), fun z => (starRingEnd ℂ) z, fun z n => z / (n : ℂ)⟩
+/-- `np.round(x).astype(int)` (half to even) and `np.min` of two reals, at `R = ℝ` -/
+noncomputable instance instFftLikeReal : FftLike ℝ :=
+  ⟨fun x => if x - ⌊x⌋ < 1 / 2 then ⌊x⌋ else if 1 / 2 < x - ⌊x⌋ then ⌊x⌋ + 1 else if ⌊x⌋ % 2 = 0 then ⌊x⌋ else ⌊x⌋ + 1, min⟩
 
-attribute [local instance] realLikeReal cxLikeComplex
+/-- `t ↦ exp(i t)` is additive -/
+theorem expI_add_complex (a b : ℝ) : (CxLike.expI (a + b) : ℂ) = CxLike.expI a * CxLike.expI b := by
+  show Complex.exp (((a + b : ℝ) : ℂ) * Complex.I) = Complex.exp ((a : ℂ) * Complex.I) * Complex.exp ((b : ℂ) * Complex.I)
+  rw [← Complex.exp_add]; congr 1; push_cast; ring
 
 theorem rootPeriodic_complex : RootPeriodic ℂ ℝ := by
   intro n a b h
